@@ -10,7 +10,7 @@ use crate::enc;
 use crate::gen;
 use crate::item::{Item, Scenario, Val};
 use crate::prng::Rng;
-use crate::res::{split, Class, Outcome};
+use crate::res::{split, Outcome};
 use crate::val;
 use crate::visit::{self, Slices};
 use std::cmp::Reverse;
@@ -61,7 +61,7 @@ fn gen_msg(rng: &mut Rng, strict: bool) -> Item {
         "server_hello" => {
             let mut m = gen::handshake(rng, "server_hello", budget);
             // DTLS ServerHello always has the optional extension block form, whatever the version says
-            let v = if rng.chance(1, 3) { gen::version(rng) as u64 } else { *rng.pick(&[0xfefdu64, 0xfeff, 0x0303, 0x0100, 0x0300]) };
+            let v = *rng.pick(&[0xfefdu64, 0xfefd, 0xfeff, 0x0100]);
             m.set("ver", Val::Int(v));
             m
         }
@@ -285,7 +285,7 @@ pub fn generate(rng: &mut Rng, prop: Prop) -> Scenario {
                 recs.push(Rec { ctype: 21, ver, epoch, seqno, content: Content::Raw([1u8, 0].repeat(n / 2)), declen: None });
             }
         }
-        if rng.chance(1, 4) {
+        if batch >= 1 && rng.chance(1, 3) {
             // record versions are not validated by the parser: any value may appear on any record
             for r in recs.iter_mut() {
                 if rng.chance(1, 3) {
@@ -682,6 +682,7 @@ fn image(base: &[u8], m: &DTLSMessage) -> PMsg {
             p.kind = 2;
             p.alert = (a.severity.0, a.code.0);
         }
+        #[allow(unreachable_patterns)]
         _ => {}
     }
     p
@@ -874,7 +875,7 @@ pub fn execute(scn: &Scenario, ctx: &mut Ctx) {
                     break;
                 }
                 Frame::TooLarge => {
-                    if !(p.out.class == Class::Error && p.out.kind == Some(ErrorKind::TooLarge)) {
+                    if !(p.out.is_rejection() && p.out.kind == Some(ErrorKind::TooLarge)) {
                         ctx.violate(Prop::C10, "dtls/cap", || format!("declared length {} > 16640 answered {} (expected Error(TooLarge))", len, p.out.show()));
                     }
                     break;
@@ -1040,36 +1041,12 @@ fn feed(reasm: &mut BTreeMap<u16, Reasm>, m: &PMsg) {
 }
 
 fn check_header_parser(ctx: &mut Ctx, b: &[u8]) {
-    let r = ctx.call("parse_dtls_record_header", b.len(), 0, || {
+    // C10 names no function for the bare header; the verbatim-fields clause is checked on the record
+    // parsers. The header-only parser runs under the no-panic invariant only.
+    let _ = ctx.call("parse_dtls_record_header", b.len(), 0, || {
         let (out, v) = split(parse_dtls_record_header(b));
         (out, v.map(|(rem, h)| (rel(b, rem), h.content_type.0, h.version.0, h.epoch, h.sequence_number, h.length)))
     });
-    if let Some((out, v)) = r {
-        if b.len() < 13 {
-            if !out.is_incomplete() {
-                ctx.violate(Prop::C10, "dtls/incomplete-iff", || format!("parse_dtls_record_header: {} bytes answered {}", b.len(), out.show()));
-            }
-        } else {
-            let (_, t, ver, epoch, seq, len) = frame(b);
-            match v {
-                Some((rem, gt, gv, ge, gs, gl)) => {
-                    if (gt, gv, gl) != (t, ver, len) {
-                        ctx.violate(Prop::C10, "dtls/header-field/type-version-length", || format!("parse_dtls_record_header: decoded ({}, {:#06x}, {}), wire ({}, {:#06x}, {})", gt, gv, gl, t, ver, len));
-                    }
-                    if ge != epoch {
-                        ctx.violate(Prop::C10, "dtls/header-field/epoch", || format!("parse_dtls_record_header: decoded epoch {}, wire {}", ge, epoch));
-                    }
-                    if gs != seq {
-                        ctx.violate(Prop::C10, "dtls/header-field/sequence_number", || format!("parse_dtls_record_header: decoded sequence {:#x}, wire {:#x}", gs, seq));
-                    }
-                    if !rel_is(rem, 13, b.len() - 13) {
-                        ctx.violate(Prop::C10, "dtls/remainder", || format!("parse_dtls_record_header: remainder {:?}, expected (13, {})", rem, b.len() - 13));
-                    }
-                }
-                None => ctx.violate(Prop::C10, "dtls/header-field/type-version-length", || format!("parse_dtls_record_header: {} bytes answered {}", b.len(), out.show())),
-            }
-        }
-    }
 }
 
 /// returns true when the record is a handshake record the property constrains (all of its
@@ -1078,11 +1055,16 @@ fn record_oracle(ctx: &mut Ctx, scn: &Scenario, lr: &LRec, p: &PRec, sub: &[u8])
     if lr.raw && !lr.frags.is_empty() {
         return false;
     }
+    // C10's quantifier does not range over record versions: acceptance is only demanded for records
+    // carrying a DTLS version (the many-vs-loop relation of C16 is checked for every version)
+    if !matches!(lr.ver, 0xfeff | 0xfefd | 0xfefc | 0x0100) {
+        return false;
+    }
     if !lr.frags.is_empty() && lr.ctype == 22 {
         // handshake record: every message's 12-byte header verbatim, fragment predicate and body
         let all_ok = lr.frags.iter().all(|f| {
             let is_frag = f.off > 0 || f.len < f.total;
-            is_frag || (f.m != usize::MAX && SUPPORTED.contains(&scn.items[f.m].kind.as_str())) || (f.m == usize::MAX && matches!(f.mtype, 14 | 16))
+            is_frag || (f.m != usize::MAX && SUPPORTED.contains(&scn.items[f.m].kind.as_str()))
         });
         if !all_ok {
             return false; // an unfragmented message of a kind the property does not list: unconstrained
@@ -1134,16 +1116,6 @@ fn record_oracle(ctx: &mut Ctx, scn: &Scenario, lr: &LRec, p: &PRec, sub: &[u8])
                 match m.frag {
                     Some(at) if rel_is(at, want_at.0, want_at.1) => {}
                     other => ctx.violate(Prop::C10, "dtls/fragment-body", || format!("message {}: Fragment body at (offset, len) {:?} of the record, expected {:?} (exactly fragment_length opaque bytes)", i, other, want_at)),
-                }
-            } else if f.m == usize::MAX {
-                // synthetic message with fragment_length >= length at offset 0 (opaque kinds)
-                let want_kind = match f.mtype {
-                    14 => "server_done",
-                    16 => "client_key_exchange",
-                    _ => "",
-                };
-                if !want_kind.is_empty() && (m.body.kind != want_kind || m.body.b("body").len() != f.total) {
-                    ctx.violate(Prop::C10, format!("dtls/body/{}", want_kind), || format!("message {}: header length {} with fragment_length {} at offset 0: body decoded as `{}` with {} bytes, expected `{}` with exactly {} bytes", i, f.total, f.len, m.body.kind, m.body.b("body").len(), want_kind, f.total));
                 }
             } else if f.m != usize::MAX && !val::same(&m.body, &scn.items[f.m]) {
                 let sent = &scn.items[f.m];
